@@ -220,7 +220,8 @@ def _hist_free(params):
         lo, hi = 0, len(HOPS) - 1
         if st == 0 and params.get("first") is not None:
             lo = hi = params["first"]
-        fr += [Free(f"op{st}", kind="int", lo=lo, hi=hi), Free(f"p{st}", kind="int", lo=0, hi=3), Free(f"g{st}", kind="bool")]
+        pmax = 3 if params["k"] <= 2 else 1  # k=3: target name is "a" or the unknown "zz"
+        fr += [Free(f"op{st}", kind="int", lo=lo, hi=hi), Free(f"p{st}", kind="int", lo=0, hi=pmax), Free(f"g{st}", kind="bool")]
     return fr
 
 
@@ -236,7 +237,8 @@ def _hist_run(params, values):
     trace = []
     for s in range(params["k"]):
         op = HOPS[realize(values[f"op{s}"])]
-        v = {"a1": values[f"p{s}"], "a2": 3 if s % 2 == 0 else 1, "ign": values[f"g{s}"], "ax": False, "ay": False}
+        p_ = values[f"p{s}"] if params["k"] <= 2 else 3 * values[f"p{s}"]
+        v = {"a1": p_, "a2": 3 if s % 2 == 0 else 1, "ign": values[f"g{s}"], "ax": False, "ay": False}
         args = _build_args(op, v, f"fnS{s}")
         snapshot = [row[:2] + [row[2], list(row[3])] for row in model]
         m_raised, m_res = model_apply(model, op, args)
@@ -366,7 +368,8 @@ def jobs(tier, seed):
     jobs.append({"harness": "step", "params": {"names": [], "alts": [], "op": "push"}, "weight": 1, "cpu_cap": 300, "wall_cap": 600})
     jobs.append({"harness": "step", "params": {"names": [], "alts": [], "op": "enable2"}, "weight": 1, "cpu_cap": 300, "wall_cap": 600})
     if tier == "quick":
-        jobs.append({"harness": "history", "params": {"k": 2}, "weight": 20, "cpu_cap": 3000, "wall_cap": 4000})
+        for first in range(len(HOPS)):
+            jobs.append({"harness": "history", "params": {"k": 2, "first": first}, "weight": 20, "cpu_cap": 3000, "wall_cap": 4000})
     else:
         for first in range(len(HOPS)):
             jobs.append({"harness": "history", "params": {"k": 3, "first": first}, "weight": 40, "cpu_cap": 6000, "wall_cap": 7200})
